@@ -87,6 +87,9 @@ const (
 	vsdRIncons  = 3
 )
 
+// steps of ChainService.Stop after which the driver can hold it (Stop act, field k)
+var vsdStopSteps = []string{"connmgr", "bcast", "wm", "utxo", "sub", "bm", "addr", "bw", "quit"}
+
 type vsdAt struct {
 	Stop string `json:"stop"`
 	Bm   string `json:"bm"`
@@ -776,8 +779,20 @@ func vsdRunOne(p vsdPathIn, scratch string) (out vsdPathOut, rerr error) {
 			n.Reorg(reorgAtStop, reorgAtStop+1)
 		}()
 	}
+	if stop.K > 0 && stop.K <= len(vsdStopSteps) {
+		// hold Stop after one of its steps (hook, build tag verif) while
+		// the rest of the client keeps running
+		step := vsdStopSteps[stop.K-1]
+		d := time.Duration(20+r.rng.Intn(70)) * time.Millisecond
+		r.info["pause"] = fmt.Sprintf("%s %dms", step, d.Milliseconds())
+		verifStopHook = func(s string) {
+			if s == step {
+				time.Sleep(d)
+			}
+		}
+	}
 	r.t0 = time.Now()
-	r.log(vsdAct{Op: "Stop", M: stop.M, At: at}, nil, "")
+	r.log(vsdAct{Op: "Stop", K: stop.K, M: stop.M, At: at}, nil, "")
 	go func() {
 		defer func() {
 			if x := recover(); x != nil {
@@ -799,6 +814,12 @@ func vsdRunOne(p vsdPathIn, scratch string) (out vsdPathOut, rerr error) {
 			d = 0
 		case 1:
 			d = time.Duration(44+r.rng.Intn(14)) * time.Millisecond
+		}
+		if syncM == 1 {
+			// the released cfheaders make the cfHandler write and announce
+			// some 2000 blocks: let that burst overlap with the
+			// subscription manager / block manager steps of Stop
+			d = time.Duration(38+r.rng.Intn(16)) * time.Millisecond
 		}
 		r.info["release_ms"] = fmt.Sprint(d.Milliseconds())
 		go func() { time.Sleep(d); nd.Release() }()
